@@ -23,6 +23,8 @@ pub struct Block {
     pub align: usize,
     pub tag: u32,
     pub released: bool,
+    /// the memory was handed out again (reuse mode): a newer entry owns it
+    pub recycled: bool,
 }
 
 #[derive(Copy, Clone, Debug)]
@@ -37,6 +39,9 @@ pub struct Release {
 struct State {
     armed: Option<u32>,
     skip: u32,
+    // reuse mode: a released block of the same layout is handed out again at once (newest first), as a real
+    // allocator would, so that address reuse between arenas is exercised; quarantine otherwise
+    reuse: bool,
     blocks: [Block; CAP],
     nblocks: usize,
     // open-addressing hash from user address to block index + 1
@@ -58,7 +63,7 @@ pub struct Tracking {
 // The harness is single-threaded; the test runner never uses this allocator concurrently.
 unsafe impl Sync for Tracking {}
 
-const EMPTY_BLOCK: Block = Block { user: 0, base: 0, pad: 0, size: 0, align: 0, tag: 0, released: false };
+const EMPTY_BLOCK: Block = Block { user: 0, base: 0, pad: 0, size: 0, align: 0, tag: 0, released: false, recycled: false };
 const EMPTY_REL: Release = Release { tag: 0, req: (0, 0), rel: (0, 0), double: false, guard_ok: true };
 
 impl Tracking {
@@ -67,6 +72,7 @@ impl Tracking {
             st: UnsafeCell::new(State {
                 armed: None,
                 skip: 0,
+                reuse: false,
                 blocks: [EMPTY_BLOCK; CAP],
                 nblocks: 0,
                 index: [0; HCAP],
@@ -98,6 +104,10 @@ impl Tracking {
         let st = self.st();
         st.armed = Some(tag);
         st.skip = skip;
+    }
+
+    pub fn set_reuse(&self, on: bool) {
+        self.st().reuse = on;
     }
 
     pub fn disarm(&self) -> bool {
@@ -191,6 +201,9 @@ impl Tracking {
         let st = self.st();
         for i in 0..st.nblocks {
             let b = st.blocks[i];
+            if b.recycled {
+                continue; // the newer entry frees the memory
+            }
             unsafe {
                 System.dealloc(
                     b.base as *mut u8,
@@ -225,6 +238,25 @@ unsafe impl GlobalAlloc for Tracking {
                 st.overflow = true;
                 return unsafe { System.alloc(layout) };
             }
+            if st.reuse {
+                let hit = (0..st.nblocks).rev().find(|&i| {
+                    let b = &st.blocks[i];
+                    b.released && !b.recycled && b.size == layout.size() && b.align == layout.align()
+                });
+                if let Some(i) = hit {
+                    let old = st.blocks[i];
+                    st.blocks[i].recycled = true;
+                    st.blocks[st.nblocks] = Block { tag, released: false, recycled: false, ..old };
+                    st.nblocks += 1;
+                    // the address now names the new entry
+                    let mut h = Self::slot(old.user);
+                    while st.index[h] != (i + 1) as u32 {
+                        h = (h + 1) & (HCAP - 1);
+                    }
+                    st.index[h] = st.nblocks as u32;
+                    return old.user as *mut u8;
+                }
+            }
             let pad = layout.align().max(32);
             let total = layout.size() + 2 * pad;
             let base = unsafe { System.alloc(Layout::from_size_align_unchecked(total, layout.align())) };
@@ -244,6 +276,7 @@ unsafe impl GlobalAlloc for Tracking {
                 align: layout.align(),
                 tag,
                 released: false,
+                recycled: false,
             };
             st.nblocks += 1;
             self.index_insert(user as usize, st.nblocks - 1);
